@@ -51,7 +51,7 @@ Theorem C12_queue_delete_source_is_model : forall (v : via) (name : list N) (if_
 Proof. exact queue_delete_source_is_model. Qed.
 
 (* ... and ExchangeDeclareOptions::into_declare *)
-Theorem C12_exchange_declare_source_is_model : forall (ty name : list N) (durable auto_delete internal : bool) (args : N) (nowait : bool), in_order exchange_declare_fields (gen_ExchangeDeclareOptions_into_declare ext_model (VR [("durable", enc_bool durable); ("auto_delete", enc_bool auto_delete); ("internal", enc_bool internal); ("arguments", VO args)]) (VBytes ty) (VBytes name) (enc_bool false) (enc_bool nowait)) = fields_of (AExchangeDeclare (if nowait then DNowait else DSync) ty name durable auto_delete internal args).
+Theorem C12_exchange_declare_source_is_model : forall (ty name : list N) (durable auto_delete internal : bool) (args : N) (nowait : bool), in_order exchange_declare_fields (gen_ExchangeDeclareOptions_into_declare (VR [("durable", enc_bool durable); ("auto_delete", enc_bool auto_delete); ("internal", enc_bool internal); ("arguments", VO args)]) (VBytes ty) (VBytes name) (enc_bool false) (enc_bool nowait)) = fields_of (AExchangeDeclare (if nowait then DNowait else DSync) ty name durable auto_delete internal args).
 Proof. exact exchange_declare_source_is_model. Qed.
 
 (* non-vacuity: Exchange::bind_to_destination puts self as the SOURCE *)
@@ -73,7 +73,7 @@ Check C12_wire_injective : forall (c1 m1 : N) (f1 : list field) (c2 m2 : N) (f2 
 Check C12_wire_fields : forall (fs : list field) (r : list N), Forall wf_field fs -> dec_fields (map type_of fs) (enc_fields fs ++ r) = Some (fs, r).
 Check C12_queue_declare_source_is_model : forall (name : list N) (durable exclusive auto_delete : bool) (args : N) (nowait : bool), in_order queue_declare_fields (gen_QueueDeclareOptions_into_declare (VR [("durable", enc_bool durable); ("exclusive", enc_bool exclusive); ("auto_delete", enc_bool auto_delete); ("arguments", VO args)]) (VBytes name) (enc_bool false) (enc_bool nowait)) = fields_of (AQueueDeclare (if nowait then DNowait else DSync) name durable exclusive auto_delete args) /\ in_order queue_declare_fields (gen_QueueDeclareOptions_into_declare (VR [("durable", enc_bool false); ("exclusive", enc_bool false); ("auto_delete", enc_bool false); ("arguments", VO 0)]) (VBytes name) (enc_bool true) (enc_bool false)) = fields_of (AQueueDeclare DPassive name durable exclusive auto_delete args).
 Check C12_queue_delete_source_is_model : forall (v : via) (name : list N) (if_unused if_empty nowait : bool), in_order queue_delete_fields (gen_QueueDeleteOptions_into_delete (VR [("if_unused", enc_bool if_unused); ("if_empty", enc_bool if_empty)]) (VBytes name) (enc_bool nowait)) = fields_of (AQueueDelete v nowait name if_unused if_empty).
-Check C12_exchange_declare_source_is_model : forall (ty name : list N) (durable auto_delete internal : bool) (args : N) (nowait : bool), in_order exchange_declare_fields (gen_ExchangeDeclareOptions_into_declare ext_model (VR [("durable", enc_bool durable); ("auto_delete", enc_bool auto_delete); ("internal", enc_bool internal); ("arguments", VO args)]) (VBytes ty) (VBytes name) (enc_bool false) (enc_bool nowait)) = fields_of (AExchangeDeclare (if nowait then DNowait else DSync) ty name durable auto_delete internal args).
+Check C12_exchange_declare_source_is_model : forall (ty name : list N) (durable auto_delete internal : bool) (args : N) (nowait : bool), in_order exchange_declare_fields (gen_ExchangeDeclareOptions_into_declare (VR [("durable", enc_bool durable); ("auto_delete", enc_bool auto_delete); ("internal", enc_bool internal); ("arguments", VO args)]) (VBytes ty) (VBytes name) (enc_bool false) (enc_bool nowait)) = fields_of (AExchangeDeclare (if nowait then DNowait else DSync) ty name durable auto_delete internal args).
 
 Print Assumptions C12_emit_describes.
 Print Assumptions C12_nowait_iff.
